@@ -214,7 +214,10 @@ pub fn run(tier: &str, seed: i64) -> Outcome {
     let spaces = vec![
         Space::slice(Universe::U2, if q { 8 } else { 1 }, off),
         Space::slice(Universe::U3, if q { 100 } else { 8 }, off),
-        Space::slice(Universe::UC { extras: 1 }, if q { 60 } else { 4 }, off),
+        // castling is a move kind of its own (no history slot, not a capture): all of UC+0 and a slice of UC+1
+        // (endgame phase, where castling is rarely best; the developed openings below are the middlegame counterpart)
+        Space::all(Universe::UC { extras: 0 }),
+        Space::slice(Universe::UC { extras: 1 }, if q { 30 } else { 2 }, off),
         Space::slice(Universe::UE { extras: 0, capturer_files: None, slider_only: false }, if q { 60 } else { 4 }, off),
         Space::slice(Universe::UP, if q { 8 } else { 1 }, off),
         Space::slice(Universe::U4 { a: code(Q, true), b: code(R, false), files: Some((3, 4)) }, if q { 4000 } else { 100 }, off),
@@ -224,6 +227,13 @@ pub fn run(tier: &str, seed: i64) -> Outcome {
         Space::bfs("perft3", ROOT_P3, if q { 1 } else { 2 }),
         Space::bfs("promo", ROOT_PROMO, 1),
         Space::bfs("ladder", ROOT_LADDER, if q { 1 } else { 2 }),
+        // developed openings in which castling (either side, either wing) is the natural next move: the one move kind
+        // that is neither a capture nor a "quiet move with a history slot" must be searched like any other
+        Space::bfs("italian", "r1bqk2r/pppp1ppp/2n2n2/2b1p3/2B1P3/2NP1N2/PPP2PPP/R1BQK2R w KQkq - 0 1", 1),
+        Space::bfs("ruy-lopez", "r1bqkb1r/1ppp1ppp/p1n2n2/4p3/B3P3/5N2/PPPP1PPP/RNBQK2R w KQkq - 0 1", 1),
+        Space::bfs("qgd", "rnbqk2r/ppp1bppp/4pn2/3p4/2PP4/2N2N2/PP2PPPP/R1BQKB1R w KQkq - 0 1", 1),
+        Space::bfs("yugoslav", "r1bqk2r/pp2ppbp/2np1np1/8/3NP3/2N1BP2/PPPQ2PP/R3KB1R b KQkq - 0 1", 1),
+        Space::bfs("both-long", "r3kbnr/pppqpppp/2n5/3p1b2/3P1B2/2N5/PPPQPPPP/R3KBNR w KQkq - 0 1", 1),
     ];
     let (acc, reports) = run_spaces(&spaces, &|ctx, acc| {
         let Ok(g) = load(ctx.pos) else { return };
